@@ -474,6 +474,12 @@ func (w *cliWorld) checkC05(final bool) {
 				}
 			}
 		}
+		// Notify has no reply to wait for: when its context had ended before it
+		// was even invoked, the context ended first
+		if op.Kind == oNotify && op.CtxKind == 4 && op.Err == nil {
+			r.Fail("wrong-outcome", "Notify %d returned nil although its context had been cancelled (#%d) before it was invoked (#%d): want the context's error", op.Idx, op.CancelSeq, op.Invoke)
+			return
+		}
 		// the context ended with no reply ever sent and no stop: must be the context's error
 		if op.Err == nil && (op.Kind == oCall || op.Kind == oCallResult) && !op.Reqs[0].Answered {
 			r.Fail("wrong-outcome", "%s %d returned success without a reply of the peer", op.Kind, op.Idx)
